@@ -12,7 +12,7 @@ echo
 echo "| seeded change | check | exit | first violation (sub-check) |"
 echo "|---|---|---|---|"
 } > $out.tmp
-for d in /verif/seeded/C*-m*/ /verif/seeded/C*-r2m*/ /verif/seeded/C*-r3m*/; do
+for d in /verif/seeded/C*-m*/ /verif/seeded/C*-r2m*/ /verif/seeded/C*-r3m*/ /verif/seeded/C*-r4m*/; do
   name=$(basename $d); id=${name%%-*}
   r=$(/verif/selftest/try_mutant.sh $d/patch.diff $id 2>/dev/null | grep -v "conda\|Conda\|PermissionError\|^$")
   rc=$(echo "$r" | head -1 | sed 's/.*exit=\([0-9]*\).*/\1/')
